@@ -1,0 +1,38 @@
+//! Verification instrumentation (compiled only with `--cfg message_io_verif`).
+//! A global, sequence-numbered trace sink. It only observes: no control flow depends on it.
+use std::sync::atomic::{AtomicU64, Ordering};
+use std::sync::Mutex;
+
+/// One trace record: global sequence number, thread name, site, argument.
+#[derive(Clone, Debug)]
+pub struct Record {
+    pub seq: u64,
+    pub thread: String,
+    pub site: &'static str,
+    pub arg: u64,
+}
+
+static SEQ: AtomicU64 = AtomicU64::new(0);
+static SINK: Mutex<Vec<Record>> = Mutex::new(Vec::new());
+
+/// Appends a record (the sequence number is taken while the sink is locked, so the order of the
+/// records is the order of the calls).
+pub fn trace(site: &'static str, arg: u64) {
+    let thread = std::thread::current().name().unwrap_or("?").to_string();
+    let mut sink = SINK.lock().unwrap_or_else(|e| e.into_inner());
+    let seq = SEQ.fetch_add(1, Ordering::SeqCst);
+    sink.push(Record { seq, thread, site, arg });
+}
+
+/// Takes everything recorded so far.
+pub fn take() -> Vec<Record> {
+    std::mem::take(&mut *SINK.lock().unwrap_or_else(|e| e.into_inner()))
+}
+
+/// Records `site` when dropped (declare it right after a lock guard: it is dropped right before it).
+pub struct OnDrop(pub &'static str);
+impl Drop for OnDrop {
+    fn drop(&mut self) {
+        trace(self.0, 0);
+    }
+}
